@@ -81,14 +81,18 @@ func VerifC09_Stop() {
 	// run B: no require-order, only what stands before the stop point
 	optB, flagB, strB, soptB, listB, _ := c09define(mode, um, false)
 	vPhase("run")
-	remA, errA := optA.Parse(cat(preArgs, []string{stop, t1, t2}))
+	tail := []string{stop, t1, t2}
+	if vThorough() {
+		tail = append(tail, vString("t3")) // a third unconstrained tail token
+	}
+	remA, errA := optA.Parse(cat(preArgs, tail))
 	remB, errB := optB.Parse(preArgs)
 	vObserve("errA", errA)
 	vObserve("remA", remA)
 	vAssert("no-error", errA == nil)
 	vAssert("reference-no-error", errB == nil)
 	vAssert("reference-remaining-empty", len(remB) == 0)
-	vAssert("rest-verbatim", eqStrs(remA, []string{stop, t1, t2}))
+	vAssert("rest-verbatim", eqStrs(remA, tail))
 	vAssert("tail-not-interpreted/v", stopKind == 3 || !optA.Called("v"))
 	// everything before the stop point is parsed exactly as without require-order
 	vAssert("same/flag", *flagA == *flagB)
@@ -131,4 +135,40 @@ func VerifC09_Command() {
 		vAssert("command-selected", *ran == "cmd;")
 	}
 	vReach("descended")
+}
+
+// Relational, for ANY token in front: with require-order the command line
+// [t0, p, t1, t2] (p a plain positional) leaves the same option state as
+// [t0, p] without require-order, and its remaining list is that of the short
+// line plus the two tail tokens, verbatim - unless p was consumed as a value.
+func VerifC09_RawBefore() {
+	vNativeReset()
+	mode := vInt("mode", 0, 2)
+	um := 2 // quick tier: pass-through; all three unknown modes in the thorough tier
+	if vThorough() {
+		um = vInt("um", 0, 2)
+	}
+	vBound("runes", 2)
+	t0 := vString("t0")
+	t1, t2 := vString("t1"), vString("t2")
+	p := positional("p", "c")
+	a, b := relDefine(mode, um, true), relDefine(mode, um, false)
+	vPhase("run")
+	remB, errB := b.opt.Parse([]string{t0, p})
+	vObserve("errB", errB != nil)
+	vObserve("remB", remB)
+	if errB != nil {
+		vReach("reference-fails")
+		return
+	}
+	if len(remB) == 0 || remB[len(remB)-1] != p {
+		vReach("stop-token-consumed")
+		return
+	}
+	remA, errA := a.opt.Parse([]string{t0, p, t1, t2})
+	vObserve("remA", remA)
+	vAssert("no-error", errA == nil)
+	vAssert("rest-verbatim", eqStrs(remA, cat(remB, []string{t1, t2})))
+	relSame(a, b)
+	vReach("compared")
 }
